@@ -147,6 +147,11 @@ type Sim struct {
 	IdleSteps []time.Duration
 	IdleCap   time.Duration
 
+	// Sched selects the scheduling policy (SchedUniform / SchedPriority).
+	Sched   int
+	prio    map[string]int
+	prioLow int
+
 	// AllowLeak: goroutines of the code under test that can never finish
 	// (a call with an uncancellable context on a dead connection) are
 	// tolerated at teardown and counted as a probe.
@@ -659,7 +664,7 @@ func (s *Sim) enabled(faults bool) []Action {
 		}})
 	}
 	if len(acts) > 0 && s.TimeWeight > 0 && len(s.TimeSteps) > 0 {
-		acts = append(acts, Action{Kind: "advance", ID: "clock", Sig: "a", Weight: s.TimeWeight, Do: func() {
+		acts = append(acts, Action{Kind: "advance", ID: "clock", Sig: "a", Weight: s.TimeWeight, Fault: "time_passes_while_operations_are_in_flight", Do: func() {
 			d := s.TimeSteps[s.Choose("advance", len(s.TimeSteps))]
 			s.Event("advance +%s", d)
 			s.sleepDriver(d)
@@ -704,6 +709,57 @@ func (s *Sim) sleepDriver(d time.Duration) {
 	raceMaskBegin()
 	time.Sleep(d)
 	raceMaskEnd()
+}
+
+// Scheduling policies.  Uniform weighted choice explores short races well but
+// almost never lets one task run a long stretch while another stays parked
+// at one point; the priority policy (after PCT, Burckhardt et al. 2010) gives
+// every task and link a random priority, always runs the enabled action of
+// highest priority, and demotes the running one at a few random change points.
+const (
+	SchedUniform  = 0
+	SchedPriority = 1
+)
+
+func (s *Sim) pickByPriority(acts []Action) int {
+	if s.prio == nil {
+		s.prio = map[string]int{}
+		s.prioLow = 0
+	}
+	// faults and spontaneous time steps keep a small uniform share
+	var special []int
+	for i, a := range acts {
+		if a.Kind == "fault" || a.Kind == "advance" {
+			special = append(special, i)
+		}
+	}
+	if len(special) > 0 && s.Choose("pct.special", 12) == 0 {
+		return special[s.Choose("pct.which", len(special))]
+	}
+	best, bestP := -1, 0
+	for i, a := range acts {
+		if a.Kind == "fault" || a.Kind == "advance" {
+			continue
+		}
+		key := a.Kind[:1] + ":" + a.ID
+		p, ok := s.prio[key]
+		if !ok {
+			p = 1000 + s.Choose("pct.prio", 1000)
+			s.prio[key] = p
+		}
+		if best < 0 || p > bestP {
+			best, bestP = i, p
+		}
+	}
+	if best < 0 {
+		return special[s.Choose("pct.which", len(special))]
+	}
+	// change point: the running entity drops below everything else
+	if s.Choose("pct.change", 25) == 0 {
+		s.prioLow--
+		s.prio[acts[best].Kind[:1]+":"+acts[best].ID] = s.prioLow
+	}
+	return best
 }
 
 // DriveOpts configures one Drive call.
@@ -782,7 +838,11 @@ func (s *Sim) Drive(o DriveOpts) DriveResult {
 			total += a.Weight
 		}
 		idx := 0
-		if !o.FIFO {
+		switch {
+		case o.FIFO:
+		case s.Sched == SchedPriority:
+			idx = s.pickByPriority(acts)
+		default:
 			r := s.Choose("act", total)
 			for i, a := range acts {
 				if r < a.Weight {
@@ -897,5 +957,18 @@ func (s *Sim) ReleaseFirst() bool {
 	s.unpark(p)
 	s.sleepDriver(time.Microsecond)
 	close(p.ch)
+	return true
+}
+
+// LinksIdle reports whether nothing is in flight on any connection.
+func (s *Sim) LinksIdle() bool {
+	s.mu.Lock()
+	links := append([]Deliverable(nil), s.links...)
+	s.mu.Unlock()
+	for _, l := range links {
+		if l.Pending() > 0 {
+			return false
+		}
+	}
 	return true
 }
